@@ -21,9 +21,27 @@ def damaged_workspaces(rng, n):
     out.append(Ws([("/w/p/src/a.gleam", "import b.{g}\npub fn f() {\n  g()\n}\n"), ("/w/p/src/b.gleam", "import a.{f}\npub fn g() {\n  f()\n}\n"),
                    ("/w/p/gleam.toml", 'name = "p"\n')], "import-rewired"))
     for i in range(n):
-        k = i % 9
+        k = i % 10
         if k == 8:
             out.append(Ws(ill_typed_workspace(rng), "ill-typed"))
+            continue
+        if k == 9:
+            # unusual characters: in front of the whole file (byte order mark ...), between items, inside a line
+            base = gen_scope.generate(rng.randrange(1 << 30))
+            files = [list(f) for f in base.files]
+            for j, (p, t) in enumerate(files):
+                if p.endswith(".gleam") and rng.random() < 0.8:
+                    x = rng.choice(p_syntax.EXOTIC) if rng.random() < 0.5 else "\ufeff"
+                    where = rng.randrange(3)
+                    if where == 0:
+                        t = x + t
+                    elif where == 1:
+                        q = rng.randrange(len(t) + 1)
+                        t = t[:q] + x + t[q:]
+                    else:
+                        t = x + t + x
+                    files[j][1] = t
+            out.append(Ws([tuple(f) for f in files], "unusual-characters"))
             continue
         base = gen_scope.generate(rng.randrange(1 << 30))
         files = [list(f) for f in base.files]
@@ -218,7 +236,7 @@ def run_sweeps(res, tier, seed, want):
     res.cov["workspace_distribution"] = labels
     res.cov["rule"] = (f"{n} workspaces of 1-3 modules: well-formed, token/character damage, truncation, duplicated items, rewired imports "
                        "(cycles, self-imports), degenerate files (empty, non-ASCII, lone quote), syntax soup from the reference grammar, arity "
-                       "damage in case clauses, well-formed but ill-typed programs (tuple indices at and past the arity, missing fields, wrong call arities and labels, "
+                       "damage in case clauses, files with unusual characters (byte order mark, separators, NUL ...) in front / inside, well-formed but ill-typed programs (tuple indices at and past the arity, missing fields, wrong call arities and labels, "
                        "calls of non-functions, mismatched patterns, huge literals); in every file, at every token boundary: hover, go-to-definition, references, highlight, completion "
                        "(plain, `.`, `@`), signature help, prepare-rename, rename (both name classes); per file: diagnostics, semantic "
                        "highlighting, syntax tree. non-trivial = damaged workspace")
